@@ -2,6 +2,7 @@ package container
 
 import (
 	"context"
+	"errors"
 	"fmt"
 	"io"
 	"os"
@@ -288,6 +289,16 @@ func (c *container) sendLoop() {
 			verifBegin()
 			if err := c.socket.SendMsg(cmd.Cmd, cmd.Msg); err != nil {
 				verifEndCmd("host", &cmd.Cmd, err)
+				if errors.Is(err, errPayloadTooLarge) {
+					// nothing was sent and the container is still in step: fail this
+					// command only, by handing its caller an error reply
+					select {
+					case c.recvCh <- recvReply{Reply: reply{Error: &errorReply{Msg: err.Error()}}}:
+						continue
+					case <-c.done:
+						return
+					}
+				}
 				c.socketError(err)
 				return
 			}
